@@ -405,3 +405,74 @@ pub fn nesting_model(which: usize) -> usize {
         2
     }
 }
+
+// ------------------------------------------------------------------------------------------
+// hand-written models for C07: a read guard of a loom RwLock that is dropped by a panic which the
+// model itself catches. The lock must be free afterwards: `try_write` succeeds, a blocking
+// `write` in another thread is not a deadlock, the protected value is the one last written.
+// (Read guards only: a std lock is not poisoned by a panicking reader either.)
+// ------------------------------------------------------------------------------------------
+
+pub const CUSTOM_C07: usize = 3;
+
+/// Returns a signature of what happened in this iteration ("ok ..." when everything is as
+/// expected).
+pub fn rwlock_caught_panic_model(which: usize) -> String {
+    use loom::sync::atomic::{AtomicUsize, Ordering::SeqCst};
+    let l = loom::sync::Arc::new(loom::sync::RwLock::new(5u64));
+    let a = loom::sync::Arc::new(AtomicUsize::new(0));
+    let reader_panics = |l: &loom::sync::RwLock<u64>| {
+        let r = std::panic::catch_unwind(std::panic::AssertUnwindSafe(|| {
+            let g = l.read().unwrap();
+            if *g == 5 {
+                panic!("VMC reader gives up while it holds the read guard");
+            }
+        }));
+        r.is_err()
+    };
+    match which {
+        0 => {
+            // main reads and panics (caught); a child races on an atomic (several iterations);
+            // then main takes the write lock without blocking
+            let a2 = a.clone();
+            let t = loom::thread::spawn(move || a2.store(1, SeqCst));
+            let _ = a.load(SeqCst);
+            let panicked = reader_panics(&l);
+            let w = match l.try_write() {
+                Ok(mut g) => {
+                    *g = 6;
+                    true
+                }
+                Err(_) => false,
+            };
+            t.join().unwrap();
+            let v = *l.read().unwrap();
+            format!("{} panicked={} try_write={} value={}", if panicked && w && v == 6 { "ok" } else { "BAD" }, panicked, w, v)
+        }
+        1 => {
+            // the reader that panics is a child; a second child blocks in write(); main reads
+            let l1 = l.clone();
+            let t1 = loom::thread::spawn(move || reader_panics(&l1));
+            let l2 = l.clone();
+            let t2 = loom::thread::spawn(move || {
+                *l2.write().unwrap() = 6;
+            });
+            let panicked = t1.join().unwrap();
+            t2.join().unwrap();
+            let v = *l.read().unwrap();
+            // the reader saw 5 (and panicked) or 6 (and did not)
+            format!("{} value={}", if v == 6 { "ok" } else { "BAD" }, v) + if panicked { " reader-panicked" } else { " reader-passed" }
+        }
+        _ => {
+            // two readers overlap, one of them panics; then try_write once both are gone
+            let l1 = l.clone();
+            let t1 = loom::thread::spawn(move || reader_panics(&l1));
+            let g = l.read().unwrap();
+            let seen = *g;
+            drop(g);
+            let panicked = t1.join().unwrap();
+            let w = l.try_write().is_ok();
+            format!("{} seen={} panicked={} try_write={}", if panicked && w && seen == 5 { "ok" } else { "BAD" }, seen, panicked, w)
+        }
+    }
+}
